@@ -2,6 +2,7 @@ package main
 
 import (
 	"go/ast"
+	"go/constant"
 	"go/token"
 	"go/types"
 )
@@ -288,7 +289,7 @@ func c05(c *Ctx) {
 					n, _ := constInt(ainfo, e)
 					good := false
 					for _, st := range cc.Body {
-						if rs, ok := st.(*ast.ReturnStmt); ok && len(rs.Results) == 1 {
+						if rs, ok := st.(*ast.ReturnStmt); ok && len(rs.Results) >= 1 {
 							if tv, ok := ainfo.Types[rs.Results[0]]; ok {
 								if a, ok := tv.Type.Underlying().(*types.Array); ok && a.Len() == n {
 									good = true
@@ -303,6 +304,12 @@ func c05(c *Ctx) {
 					for _, st := range cc.Body {
 						if rs, ok := st.(*ast.ReturnStmt); ok && len(rs.Results) == 1 && isNilIdent(ainfo, rs.Results[0]) {
 							good = true
+						}
+						// (value, ok) form: the default arm reports "not handled"
+						if rs, ok := st.(*ast.ReturnStmt); ok && len(rs.Results) == 2 {
+							if tv, has := ainfo.Types[rs.Results[1]]; has && tv.Value != nil && tv.Value.Kind() == constant.Bool && !constant.BoolVal(tv.Value) {
+								good = true
+							}
 						}
 					}
 					c.Check(good, "R4", "attribute|computeDistinctFixed|default ⇒ nil (reflect path)", at(ax.M, cc.Pos()), "falls back", "default arm does not fall back to the reflect path")
@@ -337,6 +344,40 @@ func c05(c *Ctx) {
 				return true
 			})
 		}
+		// the search written out as the canonical lower-bound loop: its "answer is at or left of mid" predicate is Key(mid) ≥ k
+		ast.Inspect(fn.Body(), func(n ast.Node) bool {
+			blk, isBlk := n.(*ast.BlockStmt)
+			if !isBlk {
+				return true
+			}
+			for i := range blk.List {
+				_, _, mid, cond, pol, ok := lowerBoundLoop(ainfo, blk.List, i)
+				if !ok {
+					continue
+				}
+				l, op, r, good := cmpNorm(cond, pol)
+				if !good {
+					continue
+				}
+				kParam := fn.Obj.Type().(*types.Signature).Params().At(0)
+				isK := func(e ast.Expr) bool { return sameVar(ainfo, e, kParam) }
+				isKeyAtMid := func(e ast.Expr) bool {
+					fv, _ := fieldOf(ainfo, e)
+					uses := false
+					ast.Inspect(e, func(m ast.Node) bool {
+						if id, isID := m.(*ast.Ident); isID && ainfo.Uses[id] == mid {
+							uses = true
+						}
+						return true
+					})
+					return fv != nil && fv.Name() == "Key" && uses
+				}
+				if (isKeyAtMid(l) && isK(r) && op == token.GEQ) || (isK(l) && isKeyAtMid(r) && op == token.LEQ) {
+					geq = true
+				}
+			}
+			return true
+		})
 		c.Check(geq && eq, "R5", "attribute|(*Set).Value|search Key ≥ k, hit confirmed by Key == k", at(ax.M, fn.Pos()), "binary search over the sorted set", "lookup predicate changed: keys are not found or a neighbouring key's value is returned")
 	}
 	if fn := c.Fn(ax, "R5", "(*Set).Equals"); fn != nil {
